@@ -651,8 +651,7 @@ class Message:
                 self.tsig.add(new_tsig)
                 if multi:
                     self.tsig_ctx = ctx
-            r.add_rrset(dns.renderer.ADDITIONAL, self.tsig)
-            r.write_header()
+            r._write_tsig(self.tsig[0], self.tsig.name)
         wire = r.get_wire()
         self.wire = wire
         if prepend_length:
